@@ -62,6 +62,7 @@ struct unavailable {};    // no spelling of the operation compiles on this tree 
 struct Case {
 	std::string id;
 	int socc = 0;
+	long fault = 0;   // > 0: the fault-th fallible event of the case (allocation, element construction / copy / move / assignment) throws
 	Slot slot[NP];
 	std::vector<std::string> lines;
 	std::map<long, int> blk_class;
@@ -240,6 +241,7 @@ static void run_case(Case& c) {
 	L.always_equal = (R0_AE != 0);
 #endif
 	L.socc_mode = c.socc;
+	R.countdown = c.fault;
 	int step = 0;
 	for(auto const& line : c.lines) {
 		Tok tk;
@@ -405,8 +407,9 @@ static void run_case(Case& c) {
 				int r = tk.arr0(); int s = tk.arr0(); show_copies = true; arm(); S(r).arr() = std::move(S(s).arr());
 			} else if(op == "assign_elem") {
 				int r = tk.arr0(); E v(ai()); int form = tk.form();
+				E tmp(v);   // built before arming: the temporary is the caller's, not a fallible library event
 				arm();
-				if(form == 1) { S(r).arr() = E(v); } else { S(r).arr() = v; }
+				if(form == 1) { S(r).arr() = std::move(tmp); } else { S(r).arr() = v; }
 			} else if(op == "assign_elem_conv") {
 				int r = tk.arr0(); CE v = static_cast<CE>(ai()); arm(); S(r).arr() = v;
 			} else if(op == "assign_conv") {
@@ -531,7 +534,7 @@ static void run_case(Case& c) {
 					Ref rq(q.p, {});
 					switch(form) {
 						case 1: Ref(q.p, {}) = v; break;
-						case 2: rq = E(v); break;
+						case 2: { R.armed = false; E tmp(v); R.armed = true; rq = std::move(tmp); break; }
 						case 3: rq = static_cast<CE>(val_of(v)); break;
 						case 4:
 #ifndef R0_NO_WRITE_CALL
@@ -627,7 +630,9 @@ static void run_case(Case& c) {
 		R.armed = false;
 		if(skipped) { std::cout << "O " << c.id << ' ' << step << ' ' << op << " skipped\n"; continue; }
 		if(!R.error.empty()) { std::cout << "X " << c.id << ' ' << step << " error " << R.error << '\n'; c.dead = true; break; }
-		std::cout << "O " << c.id << ' ' << step << ' ' << op << ' ' << (threw ? "threw" : "ok") << '\n';
+		std::cout << "O " << c.id << ' ' << step << ' ' << op << ' ' << (threw ? "threw" : "ok");
+		if(threw) { std::cout << " at=" << R.thrown_at; }
+		std::cout << '\n';
 		print_state(c, step, show_copies && !threw, show_allocs);
 		std::cout.flush();
 		if(c.dead) { break; }
@@ -641,7 +646,7 @@ static void run_case(Case& c) {
 		else {
 			long outstanding = 0;
 			for(auto const& b : L.blocks) { if(b.live) { ++outstanding; } }
-			std::cout << "Z " << c.id << " alive=" << (tracked ? R.alive : 0) << " outstanding=" << outstanding << '\n';
+			std::cout << "Z " << c.id << " alive=" << (tracked ? R.alive : 0) << " outstanding=" << outstanding << " fallible=" << R.fallible << '\n';
 		}
 	} else {
 		for(int r = 0; r != NP; ++r) { c.slot[r].kind = 0; }   // objects are dropped without running destructors
@@ -667,6 +672,8 @@ int main() {
 			std::cout.flush();
 			delete cur;
 			cur = nullptr;
+		} else if(cur != nullptr && line.rfind("fault ", 0) == 0) {
+			cur->fault = std::stol(line.substr(6));
 		} else if(cur != nullptr && line.rfind("cfg ", 0) == 0) {
 			// the check routes a case to the executable built for its configuration; only socc is a run-time choice
 			auto pos = line.find("socc=");
